@@ -1,0 +1,18 @@
+//go:build !verif
+
+package main
+
+import "fmt"
+
+// Verification hooks are compiled out unless garble is built with -tags verif;
+// see verif_on.go.
+
+func verifEvent(name string, kv ...any) {}
+
+func verifHashInput(what string) {}
+
+func verifNameEvent(kind, pkgPath, name, newName string) {}
+
+func verifCommand(args []string) error {
+	return fmt.Errorf("unknown command: %q", "verif")
+}
